@@ -225,10 +225,13 @@ def audit_props(files):
         flt = None
         if ":" in f:
             f, flt = f.split(":", 1)
-        p = os.path.join(LEAN, "NloptModel", "Props", f + ".lean")
+        sub = "Props"
+        if "/" in f:
+            sub, f = f.split("/", 1)
+        p = os.path.join(LEAN, "NloptModel", sub, f + ".lean")
         if not os.path.exists(p):
             continue
-        imports.append("import NloptModel.Props." + f)
+        imports.append("import NloptModel.%s.%s" % (sub, f))
         names = theorems_of(p)
         if flt:
             names = [t for t in names if re.search(flt, t.split(".")[-1])]
